@@ -992,6 +992,11 @@ class Interp:
             cs.env[arg.arg] = frozenset(ptags.get(arg.arg, ()))
             if arg.arg in pshapes:
                 cs.shape[arg.arg] = pshapes[arg.arg]
+        # a container of the node handed to the helper (a field, or a local alias of one) is that container inside it
+        for p_, a_ in list(zip(params, call.args)) + [(k.arg, k.value) for k in call.keywords if k.arg]:
+            al = s.alias.get(a_.id) if isinstance(a_, ast.Name) else direct_field_alias(a_)
+            if al is not None:
+                cs.alias[p_] = al
         cs.events = s.events + [self._mk(Ev('ENTER', call.lineno, callee.name, None, callee.kind,
                                             {'callee': callee, 'awaited': awaited, 'call': call,
                                              'offset': getattr(call, '_param_offset', 1)}))]
